@@ -121,7 +121,8 @@ func (s *MultipartReply) MarshalBinary() (data []byte, err error) {
 
 func (s *MultipartReply) UnmarshalBinary(data []byte) error {
 	err := s.Header.UnmarshalBinary(data)
-	n := s.Header.Len()
+	// offsets are kept in int: a uint16 offset wraps on a reply of (nearly) 64 KiB
+	n := int(s.Header.Len())
 
 	s.Type = binary.BigEndian.Uint16(data[n:])
 	n += 2
@@ -129,7 +130,7 @@ func (s *MultipartReply) UnmarshalBinary(data []byte) error {
 	n += 2
 	n += 4 // for padding
 	var req []util.Message
-	for n < s.Header.Length {
+	for n < int(s.Header.Length) {
 		var repl util.Message
 		switch s.Type {
 		case MultipartType_Aggregate:
@@ -145,15 +146,17 @@ func (s *MultipartReply) UnmarshalBinary(data []byte) error {
 		case MultipartType_Queue:
 			repl = new(QueueStats)
 		// FIXME: Support all types
-		case MultipartType_Experimenter:
-			break
+		default:
+			return fmt.Errorf("unsupported multipart reply type %d", s.Type)
 		}
 
 		err = repl.UnmarshalBinary(data[n:])
 		if err != nil {
+			// the record's extent is unknown after a failed decode: stop here
 			log.Printf("Error parsing stats reply")
+			return err
 		}
-		n += repl.Len()
+		n += int(repl.Len())
 		req = append(req, repl)
 
 	}
